@@ -531,8 +531,50 @@ func zzvKeyCid(k int) cid.Cid {
 // T distinct keys are visited in order; at a symbolic moment a symbolic earlier key is looked up and re-visited
 // (by either CID version of its multihash).
 func HarnessC13BloomGrowth() {
+	// Natively every filter of the chain draws fresh random SipHash keys, so a tiny filter has a (rare, random)
+	// false positive now and then; under the engine the filter's hash is collision-free. The property only claims
+	// the absence of false NEGATIVES, but the clauses about first visits and counters below presuppose that no
+	// false positive happened. Natively the scenario is therefore recorded and, when a run saw a false positive
+	// (a never-visited key reported present), repeated on a fresh tracker (fresh keys) up to 8 times; a defect
+	// that reports new keys as visited fails every repetition and is still confirmed.
 	T := verifrt.Param("T", 8)
 	cap0 := verifrt.NondetRange("cap0", 1, verifrt.Param("CAP", 2))
+	probeAt := verifrt.NondetRange("probeAt", 0, T-1)
+	probeKey := verifrt.NondetRange("probeKey", 0, T-1)
+	verifrt.Assume(probeKey <= probeAt)
+	if verifrt.Symbolic() {
+		zzvBloomGrowth(T, cap0, probeAt, probeKey, func(id string, ok bool) { verifrt.Assert(id, ok) }, verifrt.Observe)
+		verifrt.Reach("end")
+		return
+	}
+	type rec struct {
+		id  string
+		ok  bool
+		obs any
+	}
+	var log []rec
+	for attempt := 0; attempt < 8; attempt++ {
+		log = log[:0]
+		fp := zzvBloomGrowth(T, cap0, probeAt, probeKey,
+			func(id string, ok bool) { log = append(log, rec{id: id, ok: ok}) },
+			func(name string, v any) { log = append(log, rec{id: name, obs: v}) })
+		if !fp {
+			break
+		}
+	}
+	for _, r := range log {
+		if r.obs != nil {
+			verifrt.Observe(r.id, r.obs)
+		} else {
+			verifrt.Assert(r.id, r.ok)
+		}
+	}
+	verifrt.Reach("end")
+}
+
+// zzvBloomGrowth runs the scenario once, reporting every clause through A; it returns whether a never-visited key
+// was reported as present (false positive, or a defect that looks like one).
+func zzvBloomGrowth(T, cap0, probeAt, probeKey int, A func(id string, ok bool), O func(name string, v any)) (sawFP bool) {
 	zzvKeySeq = 0
 	zzvAbsMode = false
 	b0, err := newBloom(uint64(cap0), 32, 3)
@@ -540,19 +582,18 @@ func HarnessC13BloomGrowth() {
 		panic(err)
 	}
 	bt := &BloomTracker{chain: []*bbloom.Bloom{b0}, lastCap: uint64(cap0), bitsPerElem: 32, hashLocs: 3}
-	probeAt := verifrt.NondetRange("probeAt", 0, T-1)
-	probeKey := verifrt.NondetRange("probeKey", 0, T-1)
-	verifrt.Assume(probeKey <= probeAt)
 	// reference: growth happens when the inserts into the newest filter exceed its capacity; capacities grow 4x
 	wantCap, wantCur, wantLen := uint64(cap0), uint64(0), 1
 	okFirst, okCounters, okChain := true, true, true
 	for k := 0; k < T; k++ {
 		prev := append([]*bbloom.Bloom(nil), bt.chain...)
 		if bt.Has(zzvKeyCid(k)) {
-			okFirst = false // would be a false positive of a tiny filter: not expected with these keys
+			okFirst = false // a false positive of a tiny filter (natively: random, see HarnessC13BloomGrowth)
+			sawFP = true
 		}
 		if !bt.Visit(zzvKeyCid(k)) {
 			okFirst = false
+			sawFP = true
 		}
 		wantCur++
 		if wantCur > wantCap {
@@ -575,27 +616,27 @@ func HarnessC13BloomGrowth() {
 		if k == probeAt {
 			alt := zzvAltCid(probeKey)
 			dd := bt.Deduplicated()
-			verifrt.Assert("C13.bloom.visited-key-is-reported-by-has", bt.Has(zzvKeyCid(probeKey)) && bt.Has(alt))
-			verifrt.Assert("C13.bloom.visited-key-is-not-a-first-visit", !bt.Visit(alt) && !bt.Visit(zzvKeyCid(probeKey)))
-			verifrt.Assert("C13.bloom.dedup-counter", bt.Deduplicated() == dd+2)
+			A("C13.bloom.visited-key-is-reported-by-has", bt.Has(zzvKeyCid(probeKey)) && bt.Has(alt))
+			A("C13.bloom.visited-key-is-not-a-first-visit", !bt.Visit(alt) && !bt.Visit(zzvKeyCid(probeKey)))
+			A("C13.bloom.dedup-counter", bt.Deduplicated() == dd+2)
 			if bt.totalInserts != uint64(k+1) || bt.curInserts != wantCur || len(bt.chain) != wantLen {
 				okCounters = false
 			}
 		}
 	}
-	verifrt.Observe("chainLen", len(bt.chain))
-	verifrt.Observe("lastCap", bt.lastCap)
-	verifrt.Assert("C13.bloom.first-visit-of-new-key", okFirst)
-	verifrt.Assert("C13.bloom.counters-follow-capacity-rule", okCounters)
-	verifrt.Assert("C13.bloom.growth-appends-and-keeps-filters", okChain)
+	O("chainLen", len(bt.chain))
+	O("lastCap", bt.lastCap)
+	A("C13.bloom.first-visit-of-new-key", okFirst)
+	A("C13.bloom.counters-follow-capacity-rule", okCounters)
+	A("C13.bloom.growth-appends-and-keeps-filters", okChain)
 	okAll := true
 	for k := 0; k < T; k++ {
 		if !bt.Has(zzvKeyCid(k)) || !bt.Has(zzvAltCid(k)) || bt.Visit(zzvKeyCid(k)) {
 			okAll = false
 		}
 	}
-	verifrt.Assert("C13.bloom.no-false-negative-after-growth", okAll)
-	verifrt.Reach("end")
+	A("C13.bloom.no-false-negative-after-growth", okAll)
+	return sawFP
 }
 
 // zzvAltCid is the other CID version of key k's multihash.
